@@ -508,3 +508,65 @@ func ruleR04o(c *Ctx) {
 	}
 	c.floor("R04o", "loose null comparisons emitted by the generator", 3, loose)
 }
+
+// R04q: both backends look messages up in the catalogue the caller gave, as it is. The Go renderer keeps the
+// bundle handed to WithMessages itself (no wrapper that answers differently for some entries — the generated
+// JavaScript would still use the raw bundle), and every state is given that same value.
+func ruleR04q(c *Ctx) {
+	p := c.pkg("soyhtml")
+	if p == nil {
+		return
+	}
+	info := p.TypesInfo
+	isBundle := func(t types.Type) bool {
+		_, tn, ok := relPkgOfType(t)
+		return ok && tn == "Bundle"
+	}
+	n := 0
+	for _, fd := range c.allFuncDecls("soyhtml") {
+		bundleParams := map[types.Object]bool{}
+		for _, fl := range fd.Type.Params.List {
+			for _, nm := range fl.Names {
+				if o := info.Defs[nm]; o != nil && isBundle(o.Type()) {
+					bundleParams[o] = true
+				}
+			}
+		}
+		ord := 0
+		check := func(lhs string, rhs ast.Expr, pos token.Pos) {
+			n++
+			ord++
+			r := ast.Unparen(rhs)
+			good := false
+			if id, ok := r.(*ast.Ident); ok && (bundleParams[info.Uses[id]] || id.Name == "nil") {
+				good = true
+			}
+			if fv := fieldOf(r, info); fv != nil && isBundle(fv.Type()) {
+				good = true // handed on from the renderer / the calling state
+			}
+			c.check(good, "R04q", fmt.Sprintf("%s message-bundle#%d", c.declKey("soyhtml", fd), ord), pos,
+				"the catalogue is kept and handed on as the caller gave it",
+				lhs+" is given "+exprKey(rhs)+", not the caller's catalogue itself: the Go renderer then answers message look-ups differently from the generated JavaScript, which uses the catalogue as given")
+		}
+		ast.Inspect(fd.Body, func(x ast.Node) bool {
+			switch s := x.(type) {
+			case *ast.AssignStmt:
+				if len(s.Lhs) == len(s.Rhs) {
+					for i, l := range s.Lhs {
+						if fv := fieldOf(l, info); fv != nil && isBundle(fv.Type()) {
+							check(exprKey(l), s.Rhs[i], s.Pos())
+						}
+					}
+				}
+			case *ast.KeyValueExpr:
+				if id, ok := s.Key.(*ast.Ident); ok {
+					if fv, ok := info.Uses[id].(*types.Var); ok && fv.IsField() && isBundle(fv.Type()) {
+						check(id.Name, s.Value, s.Pos())
+					}
+				}
+			}
+			return true
+		})
+	}
+	c.floor("R04q", "places where the renderer stores or hands on the message bundle", 3, n)
+}
